@@ -30,7 +30,9 @@ LISTS = {
     },
     "slurp": {
         "read_to_end": lambda f: f["name"] == "read_to_end",
-        "read_to_string": lambda f: f["name"] == "read_to_string",
+        "read_to_string": lambda f: f["name"] == "read_to_string" and not f["def"].startswith("std::fs::"),
+        "fs::read": lambda f: f["def"] == "std::fs::read",
+        "fs::read_to_string": lambda f: f["def"] == "std::fs::read_to_string",
     },
     "stdio": {
         "stdout": lambda f: f["def"] == "std::io::stdout",
